@@ -28,7 +28,7 @@ type Event struct {
 	Instr   ssa.Instruction
 	Fn      *ssa.Function
 	Pos     token.Pos
-	Outcome string // ok/fail/true/false/"" (not branched on)
+	Outcome string   // ok/fail/true/false/"" (not branched on)
 	Kinds   []string // message kinds for send
 	To      int64    // target state for state events (-1 unknown)
 	Trigger int      // 1 true, 0 false, -1 unknown
@@ -38,8 +38,8 @@ type Event struct {
 	Val     ssa.Value // value produced (call result)
 	Ret     string    // for return: constant result rendered
 	Depth   int
-	Read    StateSet // for guard: the values the tested read may have had, after refinement
-	Stale   bool     // for guard: an own state write happened between the read and the test
+	Read    StateSet  // for guard: the values the tested read may have had, after refinement
+	Stale   bool      // for guard: an own state write happened between the read and the test
 	ReadVal ssa.Value // for guard: the read that was tested
 }
 
